@@ -441,6 +441,73 @@ def install_sites(out):
     out["Install"] = d
 
 
+@extractor
+def reconnect_constants(out):
+    """numbers and exception-handler order of the reconnect loop (C10)"""
+    from fractions import Fraction
+    UNIT = 8192
+    t = parse("controller/ip/connection.py")
+    rc = func(t, "_reconnect", "HomeKitConnection")
+    d = {"unit": UNIT}
+
+    def units(x, what):
+        v = Fraction(str(x)) * UNIT
+        if v.denominator != 1:
+            raise Shape(f"{what}={x} is not a multiple of 1/{UNIT} s")
+        return int(v)
+    init = [n for n in ast.walk(rc) if isinstance(n, ast.Assign) and getattr(n.targets[0], "id", "") == "interval" and isinstance(n.value, ast.Constant)]
+    if len(init) != 1:
+        raise Shape("_reconnect: interval = <const>")
+    d["initial"] = units(init[0].value.value, "initial interval")
+    grow = [n for n in ast.walk(rc) if isinstance(n, ast.Assign) and getattr(n.targets[0], "id", "") == "interval" and isinstance(n.value, ast.Call) and getattr(n.value.func, "id", "") == "min"]
+    if len(grow) != 1 or len(grow[0].value.args) != 2:
+        raise Shape("_reconnect: interval = min(cap, factor * interval)")
+    cap, prod = grow[0].value.args
+    if not (isinstance(cap, ast.Constant) and isinstance(prod, ast.BinOp) and isinstance(prod.op, ast.Mult)):
+        raise Shape("_reconnect: min(cap, factor * interval) operands")
+    fac = prod.left if isinstance(prod.left, ast.Constant) else prod.right
+    other = prod.right if fac is prod.left else prod.left
+    if not (isinstance(fac, ast.Constant) and getattr(other, "id", "") == "interval"):
+        raise Shape("_reconnect: factor * interval")
+    d["cap"] = units(cap.value, "cap")
+    fr = Fraction(str(fac.value))
+    d["num"], d["den"] = fr.numerator, fr.denominator
+    sleeps = [n for n in ast.walk(rc) if isinstance(n, ast.Call) and getattr(n.func, "attr", "") == "sleep"]
+    if len(sleeps) != 1 or ast.unparse(sleeps[0].args[0]) != "interval" or not grow[0].lineno < sleeps[0].lineno:
+        raise Shape("_reconnect: sleep(interval) after the growth")
+    tries = [n for n in ast.walk(rc) if isinstance(n, ast.Try) and n.handlers and any(isinstance(x, ast.Return) for x in ast.walk(ast.Module(body=n.body, type_ignores=[])))]
+    if len(tries) != 1:
+        raise Shape("_reconnect: try around _connect_once")
+    hs = []
+    for h in tries[0].handlers:
+        name = ast.unparse(h.type) if h.type is not None else "BaseException"
+        if isinstance(h.body[-1], ast.Raise):
+            act = "raise"
+        elif any(isinstance(x, ast.Continue) for x in ast.walk(h)):
+            act = "continue-if"
+        else:
+            act = "retry"
+        hs.append([name, act])
+    d["handlers"] = hs
+    co = func(t, "_connect_once", "HomeKitConnection")
+    tm = [n for n in ast.walk(co) if isinstance(n, ast.Call) and getattr(n.func, "id", "") == "asyncio_timeout"]
+    if len(tm) != 1 or not isinstance(tm[0].args[0], ast.Constant):
+        raise Shape("_connect_once: asyncio_timeout(<const>)")
+    d["connectTimeout"] = units(tm[0].args[0].value, "connect timeout")
+    sl = func(t, "_send_lines", "InsecureHomeKitProtocol")
+    tmo = [n for n in ast.walk(sl) if isinstance(n, ast.Call) and getattr(n.func, "attr", "") == "call_at"]
+    if len(tmo) != 1 or not (isinstance(tmo[0].args[0], ast.BinOp) and isinstance(tmo[0].args[0].right, ast.Constant)):
+        raise Shape("_send_lines call_at timeout")
+    d["requestTimeout"] = units(tmo[0].args[0].right.value, "request timeout")
+    tp = parse("controller/ip/pairing.py")
+    ec = func(tp, "_ensure_connected", "IpPairing")
+    tm = [n for n in ast.walk(ec) if isinstance(n, ast.Call) and getattr(n.func, "id", "") == "asyncio_timeout"]
+    if len(tm) != 1 or not isinstance(tm[0].args[0], ast.Constant):
+        raise Shape("_ensure_connected: asyncio_timeout(<const>)")
+    d["ensureTimeout"] = units(tm[0].args[0].value, "ensure timeout")
+    out["Reconnect"] = d
+
+
 # --------------------------------------------------------------------------- emission
 
 def emit(out):
@@ -581,6 +648,18 @@ def emit_install(out, files):
         L.append(f"def {k} : List String := " + lean_list(d[k], lean_str))
     L.append("end HapVerif.Gen.Install")
     files["Install.lean"] = "\n".join(L) + "\n"
+
+
+@emitter
+def emit_reconnect(out, files):
+    d = out["Reconnect"]
+    L = ["/-! GENERATED by tools/translate.py from controller/ip/connection.py (_reconnect, _connect_once, _send_lines) and controller/ip/pairing.py - do not edit.",
+         f"Times are in units of 1/{d['unit']} s. -/", "namespace HapVerif.Gen.Reconnect"]
+    for k in ("unit", "initial", "cap", "num", "den", "connectTimeout", "requestTimeout", "ensureTimeout"):
+        L.append(f"def {k} : Nat := {d[k]}")
+    L.append("def handlers : List (String × String) := " + lean_list(d["handlers"], lambda r: f"({lean_str(r[0])}, {lean_str(r[1])})"))
+    L.append("end HapVerif.Gen.Reconnect")
+    files["Reconnect.lean"] = "\n".join(L) + "\n"
 
 
 def main():
